@@ -29,7 +29,7 @@ From RtcmGen Require Import GenMessages.
 From RtcmProofs Require Import ListZ SigProofs MsmProofs MsmMasks SortProofs MsmRows DecodeFinite MsmDecode.
 From RtcmModel Require Import Frame Message.
 From RtcmGen Require Import GenMessages.
-From RtcmProofs Require Import BuilderProofs SizeProofs BuildProofs RoundTrip RoundTripFrame EncodeTotalAll EncodeFrameAll Ext2Special RoundTripAll DecodeTotal MsmTotal.
+From RtcmProofs Require Import BuilderProofs SizeProofs BuildProofs RoundTrip RoundTripFrame EncodeTotalAll EncodeFrameAll Ext2Special RoundTripAll DecodeTotal MsmTotal MsmDecoded.
 Import ListNotations.
 Open Scope Z_scope.
 
@@ -166,6 +166,16 @@ Theorem C10_mask_offsets :
   List.length (filter (fun m => has_msm (snd m)) messages) = 49%nat.
 Proof. split; vm_compute; reflexivity. Qed.
 
+(** every data segment the decoder accepts, whatever the frame: satellite rows in strictly ascending order of
+    identifier (all within 1..64), signal rows in strictly ascending (satellite, signal identifier) order --
+    row-major -- each on a listed satellite and a recognised signal *)
+Theorem C10_decoded_order : forall g a b data off sats sigs off',
+  t_decode_frag (FMsm g a b) data off = Ok (VStruct [VList sats; VList sigs], off') ->
+  exists ids cells, map sat_row_id sats = map Some ids /\ StronglySorted Z.lt ids /\ (forall s, In s ids -> 1 <= s <= 64) /\
+    map sig_row_key sigs = map (cell_key (sig_table g)) cells /\ Forall (fun c => cell_key (sig_table g) c <> None) cells /\
+    StronglySorted lexlt cells /\ (forall c, In c cells -> In (fst c) ids /\ 1 <= snd c <= 32).
+Proof. intros g a b data off sats sigs off' H. cbn [t_decode_frag decode_frag] in H. exact (msm_decoded_order (sig_table g) a b data off sats sigs off' H). Qed.
+
 (** ---------- at the public API ---------- *)
 (** table obligation: every layout that ends in an MSM data segment is plain header fields followed by that
     segment, and the row fields of the segment meet the side conditions of C08 *)
@@ -232,3 +242,4 @@ Print Assumptions C10_msm_specs_ok.
 Print Assumptions C10_segment_decodes.
 Print Assumptions C10_msm_layouts_tail.
 Print Assumptions C10_frame_decodes.
+Print Assumptions C10_decoded_order.
